@@ -405,7 +405,9 @@ class Run:
             raise e
 
     def fun(self, x, *args):
-        self._fault("fun", len(self.fcalls))
+        # faults are one-shot: keyed on the number of ATTEMPTED calls, so that a retry after a swallowed fault succeeds
+        self._nfun_attempts = getattr(self, "_nfun_attempts", 0) + 1
+        self._fault("fun", self._nfun_attempts - 1)
         pt = list(x.data)
         v = self.fu(pt)[0]
         self.fcalls.append((pt, v))
@@ -420,7 +422,8 @@ class Run:
                 x.data[i] = SReal.of(-4096)
 
     def jac(self, x, *args):
-        self._fault("jac", len(self.gcalls))
+        self._njac_attempts = getattr(self, "_njac_attempts", 0) + 1
+        self._fault("jac", self._njac_attempts - 1)
         pt = list(x.data)
         v = self.gu(pt)
         self.gcalls.append((pt, v))
